@@ -457,9 +457,11 @@ class Sut(object):
         order = []
         wrapped = False
         if orig is not None:
-            def rec(lru, crawled=False, _o=orig, _l=order):
+            def rec(*a, _o=orig, _l=order, **k):
+                lru = a[0] if a else k.get("lru")
+                crawled = a[1] if len(a) > 1 else k.get("crawled", False)
                 _l.append((lru, bool(crawled)))
-                return _o(lru, crawled=crawled)
+                return _o(*a, **k)
 
             try:
                 trie.add_page = rec
@@ -513,9 +515,9 @@ class Sut(object):
         orig = getattr(trie, "add_page", None)
         wrapped = False
         if orig is not None:
-            def rec(lru, crawled=False, _o=orig, _l=order):
-                _l.append(lru)
-                return _o(lru, crawled=crawled)
+            def rec(*a, _o=orig, _l=order, **k):
+                _l.append(a[0] if a else k.get("lru"))
+                return _o(*a, **k)
 
             try:
                 trie.add_page = rec
